@@ -13,6 +13,7 @@ import (
 	"context"
 	"crypto/sha256"
 	"encoding/json"
+	"errors"
 	"fmt"
 	"io"
 	"log/slog"
@@ -71,8 +72,27 @@ type c15Mock struct {
 	closed atomic.Int32
 }
 
-func (m *c15Mock) Ping(ctx context.Context) error             { return nil }
-func (m *c15Mock) WaitUntilRunning(ctx context.Context) error { time.Sleep(200 * time.Microsecond); return ctx.Err() }
+var errC15ScriptedLoad = errors.New("scripted load failure")
+
+func (m *c15Mock) Ping(ctx context.Context) error { return nil }
+
+// every 5th runner fails to start after a load of a few milliseconds (a crashed subprocess); every 3rd loads
+// slowly enough for an impatient client to leave meanwhile
+func (m *c15Mock) WaitUntilRunning(ctx context.Context) error {
+	switch {
+	case m.id%5 == 3:
+		time.Sleep(time.Duration(1+m.id%3) * time.Millisecond)
+		m.log.add("load-failed", m.id, m.path)
+		return errC15ScriptedLoad
+	case m.id%3 == 1:
+		for i := 0; i < 10 && ctx.Err() == nil; i++ {
+			time.Sleep(200 * time.Microsecond)
+		}
+	default:
+		time.Sleep(200 * time.Microsecond)
+	}
+	return ctx.Err()
+}
 func (m *c15Mock) Completion(ctx context.Context, req llm.CompletionRequest, fn func(llm.CompletionResponse)) error {
 	for _, p := range []string{"he", "llo", " wor", "ld"} {
 		if ctx.Err() != nil {
@@ -216,7 +236,13 @@ func c15RunRound(t *testing.T, r *kit.Rand, rd c15Round, rep *kit.Report, pw *c1
 		t.Fatal(err)
 	}
 	ts := httptest.NewServer(h)
-	defer ts.Close()
+	// not ts.Close(): it waits for every handler, and the handler of a request whose client left while it was
+	// queued never returns (the scheduler skips a cancelled request without a reply and scheduleRunner does not
+	// watch its context) - a goroutine leak of the code under test that no property here speaks about
+	defer func() {
+		ts.CloseClientConnections()
+		ts.Listener.Close()
+	}()
 	hc := &http.Client{Timeout: 60 * time.Second, Transport: &http.Transport{MaxIdleConnsPerHost: 64}}
 	defer hc.CloseIdleConnections()
 
@@ -280,6 +306,21 @@ func c15RunRound(t *testing.T, r *kit.Rand, rd c15Round, rep *kit.Report, pw *c1
 				k := cr.Intn(100)
 				kind := ""
 				switch {
+				case k < 4:
+					// an impatient client: it leaves 0.3-3 ms after sending, typically while the model is loading
+					kind = "generate-abandoned"
+					actx, acancel := context.WithTimeout(context.Background(), time.Duration(300+cr.Intn(2700))*time.Microsecond)
+					b, _ := json.Marshal(map[string]any{"model": name, "prompt": "hi there", "stream": true, "keep_alive": "5ms"})
+					req, _ := http.NewRequestWithContext(actx, "POST", ts.URL+"/api/generate", bytes.NewReader(b))
+					if resp, e := hc.Do(req); e == nil {
+						body, _ = io.ReadAll(resp.Body)
+						resp.Body.Close()
+						st = resp.StatusCode
+					}
+					acancel()
+					ops.Add(1)
+					rep.Count("requests_"+kind, 1)
+					continue
 				case k < 22:
 					kind = "generate"
 					st, body, err = c15Do(hc, "POST", ts.URL+"/api/generate", map[string]any{"model": name, "prompt": "hi there", "stream": *stream(cr.Bool()), "keep_alive": kit.Pick(cr, []string{"1ms", "5ms", "0s", "20ms"})})
@@ -451,7 +492,7 @@ func TestVerifC15(t *testing.T) {
 	rep := kit.NewReport("C15")
 	cfg := rep.Cfg()
 	defer rep.Flush()
-	rep.Set("rule", "round i = PRNG(seed,'C15',i): real router + real scheduler (mock runners) + real store; 8-32 client goroutines each issue 30-80 requests drawn from generate/chat (stream and not), embed, ps, tags, show, unload (keep_alive 0), create-from, copy, delete, blob upload, OpenAI chat, with keep-alives of 0-20 ms and MAX_LOADED_MODELS 1-2 so that loads and unloads are continuous; built with -race. Violations: every distinct data-race report of the race detector (identity = innermost ollama frames of the two accesses), every handler panic recovered by gin, process death, a /api/ps reply listing a model all of whose runners had completed Close before the request was sent, and requests that never finish with goroutines parked on server mutexes. Non-trivial & distinct = distinct (clients, max_loaded, parallel, gomaxprocs, keep_alive) configurations of rounds in which at least one runner was closed while requests were in flight")
+	rep.Set("rule", "round i = PRNG(seed,'C15',i): real router + real scheduler (mock runners) + real store; 8-32 client goroutines each issue 30-80 requests drawn from generate/chat (stream and not), embed, ps, tags, show, unload (keep_alive 0), create-from, copy, delete, blob upload, OpenAI chat, with keep-alives of 0-20 ms and MAX_LOADED_MODELS 1-2 so that loads and unloads are continuous; every 5th runner fails to start after 1-3 ms, every 3rd loads slowly, and 4 % of the requests are generate calls whose client leaves after 0.3-3 ms (loads that fail or are abandoned while /api/ps and other requests are in flight); built with -race. Violations: every distinct data-race report of the race detector (identity = innermost ollama frames of the two accesses), every handler panic recovered by gin, process death, a /api/ps reply listing a model all of whose runners had completed Close before the request was sent, and requests that never finish with goroutines parked on server mutexes. Non-trivial & distinct = distinct (clients, max_loaded, parallel, gomaxprocs, keep_alive) configurations of rounds in which at least one runner was closed while requests were in flight")
 	rep.Set("assumptions", []string{"mock runners; pull/push are not in the statement's list of request kinds and are not driven here", "race identity: pair of innermost github.com/ollama/ollama frames (function names)"})
 	n := cfg.N(18, 480)
 	for i := 0; i < n; i++ {
